@@ -16,8 +16,8 @@ from models import bindings as M
 ID = "C11"
 ENGINE = "threadsim"
 LEVEL = "exploration"
-TIERS = {"quick": {"runs": 10000, "timeout": 1200}, "thorough": {"runs": 300000, "timeout": 7200,
-                                                                "lane_timeout": 1500}}
+TIERS = {"quick": {"runs": 10000, "timeout": 3600, "lane_timeout": 1800}, "thorough": {"runs": 300000, "timeout": 21600,
+                                                                "lane_timeout": 10800}}
 EST_STEPS = [150, 500, 1500]
 P_OPCODE = 0.0
 MAX_STEPS = 60000
